@@ -7,5 +7,6 @@ CONSTANTS
   Cap = 2
   MaxOps = 0
   StrictTx = TRUE
+INVARIANTS TNoPanic
 PROPERTIES TReplyRxProp TReplyShapeProp TNoCrossClientProp TKernelTxWinsProp TRecordedTxLaterProp TLostTxDroppedProp TStaleUpdateNoEffectProp TUpdateLocalProp THandleLocalProp
 POSTCONDITION Consumed
